@@ -452,6 +452,10 @@ def extra_checks(tier, seed, pool):
     if r['confirmed']:
         out['failures'] = [{'obligation': 'C12 (bounded): generated command line violates a postcondition', 'unit': 0, 'shape': 'bounded', 'model': None, 'extra': None, 'goal': '', 'path_condition': [],
                             'solver': 'bounded enumeration', 'native': r}]
+    from . import conformance
+    conf = conformance.run(['json_getval', 'cli helpers'])
+    out['errors'] = conf['errors']
+    out['samples'] = conf['samples']
     return out
 
 
